@@ -20,7 +20,7 @@ import (
 
 var rNilField = &Rule{
 	Name: "R-NILFIELD",
-	Doc: "contradiction rule (Engler): if some method tests a pointer field of a module error type against nil, then either no construction site can store nil into it (every store evaluated NonNil by the nilness interpreter, no literal omits it), " +
+	Doc: "for every pointer-like field of a module error type: either no construction site can store nil into it (every store evaluated NonNil by the nilness interpreter, no literal omits it), " +
 		"or every dereference of the field - including calls of methods that dereference a nil receiver, summarised from the dependency's SSA - is unreachable when the field is nil (what-if evaluation with the field forced to nil)",
 	Run: runNilField,
 }
@@ -72,9 +72,6 @@ func runNilField(c *core.Ctx) {
 				loaders = append(loaders, fn)
 			}
 		}
-		if !testPos.IsValid() {
-			continue
-		}
 		tested++
 		// 2. can a construction site leave it nil?
 		ev := nilEval(c)
@@ -103,6 +100,9 @@ func runNilField(c *core.Ctx) {
 					if !types.Identical(sx.Deref(x.Type()), cd.et.Named) {
 						return
 					}
+					if onlyTypeKeyProbe(x) {
+						return // &T{} built only to compute its type key: never used as an error value
+					}
 					set := false
 					for _, r := range *x.Referrers() {
 						if fa, ok := r.(*ssa.FieldAddr); ok && sx.FieldOf(fa) == cd.f {
@@ -120,7 +120,7 @@ func runNilField(c *core.Ctx) {
 			})
 		}
 		if len(nilStores) == 0 {
-			c.Ob(name, testPos, true, fmt.Sprintf("field is nil-tested but can never be nil: all %d stores are non-nil and no literal omits it", nStores))
+			c.Ob(name, cd.et.Named.Obj().Pos(), true, fmt.Sprintf("pointer field can never be nil: all %d stores are non-nil and no literal omits it", nStores))
 			continue
 		}
 		// 3. what-if: force the field to nil and look for reachable dereferences.
@@ -137,14 +137,17 @@ func runNilField(c *core.Ctx) {
 			seen := map[string]bool{}
 			for _, e := range s.Events {
 				construct := fmt.Sprintf("%s: %s is nil", load.FnName(fn), name)
-				what := fmt.Sprintf("field is nil-tested elsewhere and can be nil, but here it is dereferenced unguarded: %s in %s", e.What, load.FnName(e.Fn))
+				what := fmt.Sprintf("field can be nil (a construction site stores a possibly-nil value), but here it is dereferenced unguarded: %s in %s", e.What, load.FnName(e.Fn))
 				if seen[what] {
 					continue
 				}
 				seen[what] = true
 				found++
 				path := append([]string{}, nilStores...)
-				path = append(path, "nil test at "+p.Pos(testPos), "dereference at "+p.Pos(sx.InstrPos(e.Instr)))
+				if testPos.IsValid() {
+					path = append(path, "nil test elsewhere at "+p.Pos(testPos))
+				}
+				path = append(path, "dereference at "+p.Pos(sx.InstrPos(e.Instr)))
 				c.Fail(construct, fn.Pos(), what, path...)
 			}
 			if len(s.Events) == 0 {
@@ -153,7 +156,7 @@ func runNilField(c *core.Ctx) {
 		}
 	}
 	c.Census[c.Rule+": pointer-like fields of module error types"] = len(cands)
-	c.Min("nil-tested pointer fields", tested, 1)
+	c.Min("pointer-like fields of module error types examined", tested, 3)
 }
 
 // ---------------------------------------------------------------------------
@@ -246,3 +249,24 @@ var rEnumTotal = &Rule{
 
 var _ = sort.Strings
 var _ = strings.Join
+
+// onlyTypeKeyProbe: the allocation is only boxed and handed to GetTypeKey.
+func onlyTypeKeyProbe(al *ssa.Alloc) bool {
+	n := 0
+	for _, r := range *al.Referrers() {
+		switch x := r.(type) {
+		case *ssa.MakeInterface:
+			for _, r2 := range *x.Referrers() {
+				call, ok := r2.(*ssa.Call)
+				if !ok || sx.Callee(call) == nil || sx.Callee(call).Name() != "GetTypeKey" {
+					return false
+				}
+				n++
+			}
+		case *ssa.DebugRef:
+		default:
+			return false
+		}
+	}
+	return n > 0
+}
